@@ -303,6 +303,10 @@ def m_dict(I, st, cls, ca, node):
             if d.kind == 'concdict':
                 s = st.fork()
                 return [(s, s.alloc(ConcDict(d.items)))]
+        items = I.static_seq(st, o)
+        if items is not None and all(isinstance(x, TupleV) and len(x.items) == 2 and isinstance(x.items[0], StrV) for x in items):
+            s = st.fork()
+            return [(s, s.alloc(ConcDict(dict((x.items[0].s, x.items[1]) for x in items))))]
         h = I.dict_hook
         if h is not None:
             r = h(I, st, o)
